@@ -103,7 +103,8 @@ func (gn *Geneve) DecodeFromBytes(data []byte, df gopacket.DecodeFeedback) error
 	}
 
 	for length > 0 {
-		opt, len, err := decodeGeneveOption(data[offset:], gn, df)
+		// an option may not extend beyond the options area
+		opt, len, err := decodeGeneveOption(data[offset:offset+int(length)], gn, df)
 		if err != nil {
 			return err
 		}
@@ -137,6 +138,9 @@ func (gn *Geneve) SerializeTo(b gopacket.SerializeBuffer, opts gopacket.Serializ
 		optionsLength += 4 + dataLen
 	}
 	if opts.FixLengths {
+		if optionsLength > 0x3f*4 {
+			return fmt.Errorf("Geneve options of %d octets exceed the 6 bit options length field", optionsLength)
+		}
 		gn.OptionsLength = uint8(optionsLength)
 	}
 
